@@ -281,7 +281,8 @@ def proto(u, cn, manual={}):
 
 MANUAL_PROTOS = {
     # functions returning a function pointer: the emitter has no prototype rule; the declaration is written by hand
-    'MockNamedValue_getFunctionPointerValue': 'void (*MockNamedValue_getFunctionPointerValue(const struct MockNamedValue *self))()',
+    # (through a typedef: CBMC does not attach contract clauses to the declarator form `void (*f(args))()`)
+    'MockNamedValue_getFunctionPointerValue': 'c19_fptr_t MockNamedValue_getFunctionPointerValue(const struct MockNamedValue *self)',
 }
 
 def split_proto_params(pr):
@@ -349,7 +350,7 @@ def gen():
     # ---- ghost state
     ghosts = ['g_calls', 'g_method', 'g_has_calls', 'g_has_on', 'g_ss_calls', 'g_ss1', 'g_ss2', 'g_ss1_text', 'g_ss2_text', 'g_nv_cur', 'g_type_ss',
               'g_get_calls', 'g_getter']
-    d = ['@decl', '/* ---- C19 ghost state: which C++ method was reached, on which object, with which arguments ---- */',
+    d = ['@decl', 'typedef void (*c19_fptr_t)();', '/* ---- C19 ghost state: which C++ method was reached, on which object, with which arguments ---- */',
          'enum c19_method { M_NONE = 0,']
     d += ['  %s,' % tag(c) for c in tags]
     d += ['  M_LAST };', 'enum c19_getter { G_NONE = 0,'] + ['  G_%s,' % g[3] for g in UNION] + ['  G_LAST };']
@@ -650,7 +651,281 @@ CONV_SECTION = '''
 @end
 '''
 
-EXTRA_SECTION = ''
+EXTRA_SECTION = r'''
+# ================================================================ (4) the rest of MockSupport_c.cpp
+# ---- mock_c / mock_scope_c: select the MockSupport (global scope = the empty name) with the C-only failure reporter
+@stub mock
+MockSupport *mock(const SimpleString *mockName, MockFailureReporter *failureReporterForThisCall)
+  __CPROVER_requires(g_calls == 0)
+  __CPROVER_assigns(g_calls, g_method, g_name_text, g_arg_reporter)
+  __CPROVER_ensures(g_calls == 1 && g_method == M_mock && g_name_text == C19_TEXT_OF(mockName) && g_arg_reporter == (const void *)failureReporterForThisCall)
+  __CPROVER_ensures(__CPROVER_return_value == g_sup_next);
+@end
+@function mock_c
+@contract
+  __CPROVER_requires(C19_START)
+  __CPROVER_assigns(C19_GHOSTS, currentMockSupport)
+  __CPROVER_ensures(g_calls == 1 && g_method == M_mock)
+  /* the global MockSupport: mock("") */
+  __CPROVER_ensures(g_name_text == g_ss1_text && g_ss1_text != (const char *)0 && g_ss1_text[0] == 0)
+  /* failures of C-only code leave through the reporter whose terminator does not throw */
+  __CPROVER_ensures(g_arg_reporter == (const void *)&failureReporterForC)
+  __CPROVER_ensures(currentMockSupport == g_sup_next)
+  __CPROVER_ensures(expectedCall == __CPROVER_old(expectedCall) && actualCall == __CPROVER_old(actualCall))
+  __CPROVER_ensures(__CPROVER_return_value == &gMockSupport)
+@end
+@function mock_scope_c
+@contract
+  __CPROVER_requires(C19_START)
+  __CPROVER_assigns(C19_GHOSTS, currentMockSupport)
+  __CPROVER_ensures(g_calls == 1 && g_method == M_mock)
+  __CPROVER_ensures(g_name_text == scope)
+  __CPROVER_ensures(g_arg_reporter == (const void *)&failureReporterForC)
+  __CPROVER_ensures(currentMockSupport == g_sup_next)
+  __CPROVER_ensures(expectedCall == __CPROVER_old(expectedCall) && actualCall == __CPROVER_old(actualCall))
+  __CPROVER_ensures(__CPROVER_return_value == &gMockSupport)
+@end
+@proof fwd.mock_c
+@object-bits 10
+@enforce mock_c
+@end
+@proof fwd.mock_scope_c
+@object-bits 10
+@enforce mock_scope_c
+@end
+
+# ---- installComparator / installCopier: a new adaptor node wrapping the C functions heads the list and is what MockSupport gets
+@decl
+struct MockCFunctionComparatorNode g_node_cmp; struct MockCFunctionCopierNode g_node_cpy;   /* what operator new hands out */
+unsigned g_new_calls;
+@end
+@stub MockSupport_installComparator
+void MockSupport_installComparator(struct MockSupport *self, const SimpleString *typeName, MockNamedValueComparator *comparator)
+  __CPROVER_requires(self == g_sup_cur)
+  __CPROVER_requires(g_calls == 0)
+  __CPROVER_assigns(g_calls, g_method, g_type_text, g_arg_node)
+  __CPROVER_ensures(g_calls == 1 && g_method == M_MockSupport_installComparator && g_type_text == C19_TEXT_OF(typeName) && g_arg_node == (const void *)comparator);
+@end
+@stub MockSupport_installCopier
+void MockSupport_installCopier(struct MockSupport *self, const SimpleString *typeName, MockNamedValueCopier *copier)
+  __CPROVER_requires(self == g_sup_cur)
+  __CPROVER_requires(g_calls == 0)
+  __CPROVER_assigns(g_calls, g_method, g_type_text, g_arg_node)
+  __CPROVER_ensures(g_calls == 1 && g_method == M_MockSupport_installCopier && g_type_text == C19_TEXT_OF(typeName) && g_arg_node == (const void *)copier);
+@end
+@function installComparator_c
+@contract
+  __CPROVER_requires(C19_START && g_new_calls == 0)
+  __CPROVER_assigns(C19_GHOSTS, g_new_calls, comparatorList_, __CPROVER_object_whole(&g_node_cmp))
+  __CPROVER_ensures(g_calls == 1 && g_method == M_MockSupport_installComparator && g_new_calls == 1)
+  __CPROVER_ensures(g_type_text == typeName)
+  /* the new node is what MockSupport::installComparator receives, and it heads the list of nodes to be released later */
+  __CPROVER_ensures(g_arg_node == (const void *)&g_node_cmp && comparatorList_ == &g_node_cmp)
+  __CPROVER_ensures(g_node_cmp.next_ == __CPROVER_old(comparatorList_) && g_node_cmp.equal_ == isEqual && g_node_cmp.toString_ == valueToString)
+  __CPROVER_ensures(expectedCall == __CPROVER_old(expectedCall) && actualCall == __CPROVER_old(actualCall) && currentMockSupport == __CPROVER_old(currentMockSupport))
+@end
+@function installCopier_c
+@contract
+  __CPROVER_requires(C19_START && g_new_calls == 0)
+  __CPROVER_assigns(C19_GHOSTS, g_new_calls, copierList_, __CPROVER_object_whole(&g_node_cpy))
+  __CPROVER_ensures(g_calls == 1 && g_method == M_MockSupport_installCopier && g_new_calls == 1)
+  __CPROVER_ensures(g_type_text == typeName)
+  __CPROVER_ensures(g_arg_node == (const void *)&g_node_cpy && copierList_ == &g_node_cpy)
+  __CPROVER_ensures(g_node_cpy.next_ == __CPROVER_old(copierList_) && g_node_cpy.copier_ == copier)
+  __CPROVER_ensures(expectedCall == __CPROVER_old(expectedCall) && actualCall == __CPROVER_old(actualCall) && currentMockSupport == __CPROVER_old(currentMockSupport))
+@end
+@proof fwd.installComparator
+@object-bits 10
+@enforce installComparator_c
+@body MockCFunctionComparatorNode_ctor MockNamedValueComparator_ctor
+@extra
+void *VERIF_operator_new(size_t size)
+{
+  __CPROVER_assert(size == sizeof(struct MockCFunctionComparatorNode), "one comparator node is allocated");
+  g_new_calls++;
+  return &g_node_cmp;
+}
+@end
+@proof fwd.installCopier
+@object-bits 10
+@enforce installCopier_c
+@body MockCFunctionCopierNode_ctor MockNamedValueCopier_ctor
+@extra
+void *VERIF_operator_new(size_t size)
+{
+  __CPROVER_assert(size == sizeof(struct MockCFunctionCopierNode), "one copier node is allocated");
+  g_new_calls++;
+  return &g_node_cpy;
+}
+@end
+
+# ---- removeAllComparatorsAndCopiers: every adaptor node is destroyed and released exactly once, both lists end empty, and the
+# MockSupport forgets them.  Bounded stand-in: lists of 0..2 comparator nodes and 0..2 copier nodes.
+@decl
+struct MockCFunctionComparatorNode h_cmp[2]; struct MockCFunctionCopierNode h_cpy[2];
+unsigned g_dtor_cmp[2], g_dtor_cpy[2], g_free_cmp[2], g_free_cpy[2], g_free_other, g_removed_at_frees;
+@end
+@stub MockSupport_removeAllComparatorsAndCopiers
+void MockSupport_removeAllComparatorsAndCopiers(struct MockSupport *self)
+  __CPROVER_requires(self == g_sup_cur)
+  __CPROVER_requires(g_calls == 0)
+  __CPROVER_assigns(g_calls, g_method)
+  __CPROVER_ensures(g_calls == 1 && g_method == M_MockSupport_removeAllComparatorsAndCopiers);
+@end
+@proof fwd.removeAllComparatorsAndCopiers.bounded
+@object-bits 10
+@body removeAllComparatorsAndCopiers_c MockCFunctionComparatorNode_dtor MockCFunctionCopierNode_dtor
+@unwindset removeAllComparatorsAndCopiers_c.0:3,removeAllComparatorsAndCopiers_c.1:3
+@bounded lists of at most 2 comparator nodes and 2 copier nodes (every shorter list included)
+@extra
+void MockNamedValueComparator_dtor(struct MockNamedValueComparator *self)
+{
+  for (unsigned i = 0; i < 2; i++) if ((void *)self == (void *)&h_cmp[i]) { __CPROVER_assert(g_free_cmp[i] == 0, "destroyed before it is released"); g_dtor_cmp[i]++; }
+}
+void MockNamedValueCopier_dtor(struct MockNamedValueCopier *self)
+{
+  for (unsigned i = 0; i < 2; i++) if ((void *)self == (void *)&h_cpy[i]) { __CPROVER_assert(g_free_cpy[i] == 0, "destroyed before it is released"); g_dtor_cpy[i]++; }
+}
+void VERIF_operator_delete(void *p)
+{
+  /* a released node is poisoned: reading its link afterwards is a use after free */
+  for (unsigned i = 0; i < 2; i++)
+  {
+    if (p == (void *)&h_cmp[i]) { g_free_cmp[i]++; h_cmp[i].next_ = (struct MockCFunctionComparatorNode *)1; return; }
+    if (p == (void *)&h_cpy[i]) { g_free_cpy[i]++; h_cpy[i].next_ = (struct MockCFunctionCopierNode *)1; return; }
+  }
+  g_free_other++;
+}
+@harness
+void verif_harness(void)
+{
+  unsigned ncmp, ncpy;
+  __CPROVER_assume(ncmp <= 2 && ncpy <= 2);
+  __CPROVER_assume(C19_START && g_free_other == 0);
+  for (unsigned i = 0; i < 2; i++) { __CPROVER_assume(g_dtor_cmp[i] == 0 && g_dtor_cpy[i] == 0 && g_free_cmp[i] == 0 && g_free_cpy[i] == 0); }
+  comparatorList_ = ncmp == 0 ? (struct MockCFunctionComparatorNode *)0 : &h_cmp[0];
+  h_cmp[0].next_ = ncmp == 2 ? &h_cmp[1] : (struct MockCFunctionComparatorNode *)0; h_cmp[1].next_ = (struct MockCFunctionComparatorNode *)0;
+  copierList_ = ncpy == 0 ? (struct MockCFunctionCopierNode *)0 : &h_cpy[0];
+  h_cpy[0].next_ = ncpy == 2 ? &h_cpy[1] : (struct MockCFunctionCopierNode *)0; h_cpy[1].next_ = (struct MockCFunctionCopierNode *)0;
+  removeAllComparatorsAndCopiers_c();
+  __CPROVER_assert(comparatorList_ == (struct MockCFunctionComparatorNode *)0 && copierList_ == (struct MockCFunctionCopierNode *)0, "both lists are empty afterwards");
+  for (unsigned i = 0; i < 2; i++)
+  {
+    __CPROVER_assert(g_dtor_cmp[i] == (i < ncmp) && g_free_cmp[i] == (i < ncmp), "every comparator node of the list is destroyed and released exactly once, no other");
+    __CPROVER_assert(g_dtor_cpy[i] == (i < ncpy) && g_free_cpy[i] == (i < ncpy), "every copier node of the list is destroyed and released exactly once, no other");
+  }
+  __CPROVER_assert(g_free_other == 0, "nothing else is released");
+  __CPROVER_assert(g_calls == 1 && g_method == M_MockSupport_removeAllComparatorsAndCopiers, "the current MockSupport forgets its comparators and copiers");
+  VERIF_CANARY
+}
+@end
+
+# ---- the adaptor nodes: a C++ comparator / copier that calls the C functions it was built from, arguments in order
+@decl
+int c19_equal(const void *object1, const void *object2);
+const char *c19_to_string(const void *object);
+void c19_copy(void *dst, const void *src);
+int g_eq_ret; const char *g_str_ret; unsigned g_cb_calls; const void *g_cb_a, *g_cb_b;
+@end
+@proof adaptor.comparator.isEqual
+@object-bits 10
+@body MockCFunctionComparatorNode_isEqual
+@extra
+int c19_equal(const void *object1, const void *object2) { g_cb_calls++; g_cb_a = object1; g_cb_b = object2; return g_eq_ret; }
+@harness
+void verif_harness(void)
+{
+  const void *o1, *o2;
+  __CPROVER_assume(g_cb_calls == 0);
+  g_node_cmp.equal_ = c19_equal;
+  _Bool r = MockCFunctionComparatorNode_isEqual(&g_node_cmp, o1, o2);
+  __CPROVER_assert(g_cb_calls == 1 && g_cb_a == o1 && g_cb_b == o2, "the C equality function is asked once, objects in order");
+  __CPROVER_assert(r == (g_eq_ret != 0), "equal exactly when the C function answers nonzero (any nonzero value, not only 1)");
+  VERIF_CANARY
+}
+@end
+@proof adaptor.comparator.valueToString
+@object-bits 10
+@body MockCFunctionComparatorNode_valueToString
+@extra
+const char *c19_to_string(const void *object) { g_cb_calls++; g_cb_a = object; return g_str_ret; }
+@harness
+void verif_harness(void)
+{
+  const void *o; struct SimpleString out;
+  __CPROVER_assume(g_cb_calls == 0 && g_ss_calls == 0);
+  g_node_cmp.toString_ = c19_to_string;
+  struct SimpleString *r = MockCFunctionComparatorNode_valueToString(&out, &g_node_cmp, o);
+  __CPROVER_assert(g_cb_calls == 1 && g_cb_a == o, "the C to-string function is asked once about the object");
+  __CPROVER_assert(r == &out && g_ss_calls == 1 && g_ss1 == &out && g_ss1_text == g_str_ret, "the result is the string built from what the C function answered");
+  VERIF_CANARY
+}
+@end
+@proof adaptor.copier.copy
+@object-bits 10
+@body MockCFunctionCopierNode_copy
+@extra
+void c19_copy(void *dst, const void *src) { g_cb_calls++; g_cb_a = dst; g_cb_b = src; }
+@harness
+void verif_harness(void)
+{
+  void *d; const void *s_;
+  __CPROVER_assume(g_cb_calls == 0);
+  g_node_cpy.copier_ = c19_copy;
+  MockCFunctionCopierNode_copy(&g_node_cpy, d, s_);
+  __CPROVER_assert(g_cb_calls == 1 && g_cb_a == d && g_cb_b == s_, "the C copy function runs once, destination first");
+  VERIF_CANARY
+}
+@end
+
+# ---- the C-only failure reporter: a mock failure of C code fails the running test once, through a terminator that leaves by
+# longjmp (C frames cannot be unwound by an exception), crashing first when crashOnFailure is set
+@decl
+struct UtestShell *g_test; _Bool g_test_failed; unsigned g_failwith_calls, g_crash_calls, g_exit_calls; const struct TestTerminator *g_noexc_terminator;
+struct MockFailureReporterForInCOnlyCode g_reporter; struct MockFailureReporterTestTerminatorForInCOnlyCode g_cterm; struct MockFailure g_failure;
+@end
+@proof reporter.failTest
+@object-bits 10
+@body MockFailureReporterForInCOnlyCode_failTest MockFailureReporterTestTerminatorForInCOnlyCode_ctor
+@extra
+UtestShell *MockFailureReporter_getTestToFail(struct MockFailureReporter *self) { __CPROVER_assert(self == (struct MockFailureReporter *)&g_reporter, "the reporter's own test"); return g_test; }
+_Bool UtestShell_hasFailed(const struct UtestShell *self) { __CPROVER_assert(self == g_test, "asked of the test to fail"); return g_test_failed; }
+void UtestShell_failWith__2(struct UtestShell *self, const TestFailure *failure, const TestTerminator *terminator)
+{
+  __CPROVER_assert(self == g_test, "the test to fail is failed");
+  __CPROVER_assert(failure == (const TestFailure *)&g_failure, "with the mock failure as reported");
+  __CPROVER_assert((((const struct MockFailureReporterTestTerminatorForInCOnlyCode *)terminator)->crashOnFailure_ != 0) == (((struct MockFailureReporter *)&g_reporter)->crashOnFailure_ != 0), "the terminator carries the reporter's crash flag");
+  g_failwith_calls++;
+}
+@harness
+void verif_harness(void)
+{
+  __CPROVER_assume(g_failwith_calls == 0);
+  MockFailureReporterForInCOnlyCode_failTest(&g_reporter, &g_failure);
+  __CPROVER_assert(g_failwith_calls == (g_test_failed ? 0 : 1), "fails the test exactly when it has not failed yet");
+  VERIF_CANARY
+}
+@end
+@proof reporter.exitCurrentTest
+@object-bits 10
+@body MockFailureReporterTestTerminatorForInCOnlyCode_exitCurrentTest
+@unwindset MockFailureReporterTestTerminatorForInCOnlyCode_exitCurrentTest.0:2
+@complete-unwind do { } while (0) of the UT_CRASH macro
+@extra
+void UtestShell_crash(void) { __CPROVER_assert(g_exit_calls == 0, "crash before the exit"); g_crash_calls++; }
+const TestTerminator *UtestShell_getCurrentTestTerminatorWithoutExceptions(void) { return g_noexc_terminator; }
+void TestTerminator_exitCurrentTest(const struct TestTerminator *self) { __CPROVER_assert(self == g_noexc_terminator, "leaves through the terminator that does not throw"); g_exit_calls++; }
+@harness
+void verif_harness(void)
+{
+  __CPROVER_assume(g_crash_calls == 0 && g_exit_calls == 0);
+  MockFailureReporterTestTerminatorForInCOnlyCode_exitCurrentTest(&g_cterm);
+  __CPROVER_assert(g_crash_calls == (g_cterm.crashOnFailure_ ? 1 : 0), "crashes exactly when crashOnFailure is set");
+  __CPROVER_assert(g_exit_calls == 1, "then ends the running test");
+  VERIF_CANARY
+}
+@end
+'''
 
 if __name__ == '__main__':
     gen()
